@@ -1,7 +1,7 @@
 #!/usr/bin/env python3
 """Mutation battery: one-token mutants of the anchor files. For each mutant that still builds and
 passes the offline tests of its package, run the checks of the properties anchored in that file and
-record whether any fires. Survivors (tests pass, checks silent) are listed for manual triage.
+record whether any fires (all 20 properties in one process: tongocheck -sweep). Survivors (tests pass, checks silent) are listed for manual triage.
 usage: tools/mutate.py <out.jsonl> [file ...]     (scratch copies under /tmp/mut-*, removed after use)"""
 import os, re, sys, json, subprocess, shutil, hashlib
 from concurrent.futures import ThreadPoolExecutor
@@ -17,6 +17,7 @@ FILES = {
  'liteapi/pool/conn_pool.go': 'C13', 'liteapi/pool/connection.go': 'C13',
  'wallet/wallet.go': 'C14 C15', 'wallet/messages.go': 'C14', 'wallet/wallets_common.go': 'C14 C15', 'wallet/wallet_v3.go': 'C14 C15',
  'wallet/wallet_v4.go': 'C14 C15', 'wallet/wallet_v5.go': 'C14 C15', 'wallet/wallet_v5_beta.go': 'C14 C15', 'wallet/wallet_highload_v2.go': 'C14 C15',
+ 'tlb/stack.go': 'C03 C08', 'tlb/tags.go': 'C03 C04', 'tlb/proof.go': 'C05 C18', 'wallet/models.go': 'C14 C15', 'liteapi/client.go': 'C08 C16', 'ton/bits.go': 'C17 C20',
  'ton/account.go': 'C17 C19', 'ton/shards.go': 'C17', 'ton/block.go': 'C04 C14 C17', 'tonconnect/server.go': 'C19', 'utils/crc16.go': 'C17',
 }
 SKIP = {'wallet': 'TestGetSeqno|TestGetW5|TestSimpleSend', 'liteclient': 'Test.*Client|TestGeneratedMethod|TestNewClient|TestClient', 'liteapi/pool': 'Test_connection|TestNewConnPool|TestConn.*Network', 'tonconnect': 'TestCreateSignedProof|TestExpirePayload|TestGenerateAndVerifyPayload', 'boc': 'TestDeserializeBoc'}
@@ -119,15 +120,15 @@ def _one(job):
         if rc == 124:
             res['status'] = 'killed-by-tests'; res['tests'] = ['timeout']; return res
         fired = []
-        for p in FILES[path].split():
-            rc, out = run(['/verif/bin/tongocheck', '-prop', p], '/verif', 300) if False else (None, None)
-            env = dict(ENV, TONGO_REPO=r, VERIF_DIR=v)
-            pr = subprocess.run(['/verif/bin/tongocheck', '-prop', p], env=env, capture_output=True, text=True, timeout=600)
-            if pr.returncode == 1:
-                rules = sorted(set(re.findall(r'^  rule=(\S+)', pr.stdout, re.M)))
-                fired.append(p + '[' + ','.join(rules) + ']')
-            elif pr.returncode >= 2:
-                fired.append(p + '(ERR)')
+        env = dict(ENV, TONGO_REPO=r, VERIF_DIR=v)
+        pr = subprocess.run(['/verif/bin/tongocheck', '-sweep'], env=env, capture_output=True, text=True, timeout=900)
+        lines = [l for l in pr.stdout.split('\n') if l.startswith('SWEEP ')]
+        if len(lines) != 20:
+            fired.append('(ERR)')
+        for l in lines:
+            parts = l.split(' ', 2)
+            if len(parts) == 3 and parts[2].strip():
+                fired.append(parts[1] + '[' + parts[2].strip() + ']')
         res['status'] = 'caught' if fired else 'SURVIVED'
         res['fired'] = fired
         return res
